@@ -199,7 +199,15 @@ class Canon:
                         finally:
                             canon._busy.discard(n.id)
                         # named after ALL its (non-self-referential) definitions, in sorted order: re-ordering branches or dropping a
-                        # re-binding that only wraps the value does not change the name
+                        # re-binding that only wraps the value does not change the name; with a single such definition the local
+                        # reads like that definition itself (x = e; if c: x = (x,)  ~  x = e)
+                        base_defs = [d for d in canon.multi_defs.get(n.id, []) if not any(isinstance(x, ast.Name) and x.id == n.id for x in ast.walk(d))]
+                        if len(base_defs) == 1 and len(alts) == 1 and depth < 3 and n.id not in canon.with_defs:
+                            canon._busy.add(n.id)
+                            try:
+                                return canon._inline(copy.deepcopy(base_defs[0]), depth + 1)
+                            finally:
+                                canon._busy.discard(n.id)
                         return ast.Name(id="local<" + " | ".join(alts[:3]) + ">", ctx=ast.Load())
                 return n
 
@@ -275,7 +283,49 @@ def atoms_of(test: ast.expr, truth: bool, c: Canon) -> List[FrozenSet[Atom]]:
     if isinstance(test, ast.Name) and test.id in c.single and isinstance(c.single[test.id], (ast.BoolOp, ast.Compare, ast.UnaryOp)) \
             and _depth_ok(c, test.id):
         return atoms_of(c.single[test.id], truth, c)
+    if isinstance(test, ast.Compare) and len(test.ops) == 1:
+        # an operand defined by a conditional expression (x = a if t else b): split into its two cases, so that
+        # `x == k` reads  (t and a == k) or (not t and b == k)  whatever name the intermediate has
+        for side in ("left", "right"):
+            operand = test.left if side == "left" else test.comparators[0]
+            ife = operand if isinstance(operand, ast.IfExp) else (
+                c.single.get(operand.id) if isinstance(operand, ast.Name) and isinstance(c.single.get(operand.id), ast.IfExp) else None)
+            if ife is not None:
+                def cmp_with(v):
+                    return ast.Compare(left=v if side == "left" else test.left, ops=test.ops,
+                                       comparators=[test.comparators[0] if side == "left" else v])
+                expanded = ast.BoolOp(op=ast.Or(), values=[
+                    ast.BoolOp(op=ast.And(), values=[ife.test, cmp_with(ife.body)]),
+                    ast.BoolOp(op=ast.And(), values=[ast.UnaryOp(op=ast.Not(), operand=ife.test), cmp_with(ife.orelse)])])
+                return atoms_of(expanded, truth, c)
+        folded = _fold_constant_compare(test)
+        if folded is not None:
+            return [frozenset({f"const({folded == truth})"})] if (folded == truth) else []
     return [frozenset({_lit(test, truth, c)})]
+
+
+def _fold_constant_compare(test: ast.Compare) -> Optional[bool]:
+    """Comparisons between literals decide themselves: None == 'random' -> False, None in ('a', 'b') -> False."""
+    l, op, r = test.left, test.ops[0], test.comparators[0]
+    if isinstance(l, ast.Constant) and isinstance(r, ast.Constant):
+        try:
+            if isinstance(op, ast.Eq):
+                return l.value == r.value
+            if isinstance(op, ast.NotEq):
+                return l.value != r.value
+            if isinstance(op, ast.Is):
+                return l.value is r.value
+            if isinstance(op, ast.IsNot):
+                return l.value is not r.value
+        except Exception:
+            return None
+    if isinstance(l, ast.Constant) and isinstance(r, (ast.Tuple, ast.List, ast.Set)) and all(isinstance(x, ast.Constant) for x in r.elts):
+        vals = [x.value for x in r.elts]
+        if isinstance(op, ast.In):
+            return l.value in vals
+        if isinstance(op, ast.NotIn):
+            return l.value not in vals
+    return None
 
 
 def _depth_ok(c: Canon, name: str, seen=None) -> bool:
